@@ -14,7 +14,7 @@ import (
 func init() {
 	eng.Register(&eng.Check{
 		ID: "C17",
-		Rule: "E1 bounded product for Filter.Execute: container shapes ([]T, named slice type, [N]T, map[K]T for K in {string,int,named string,bool}; nil and empty containers) over element kinds (struct, *struct incl. nil, map[string]interface{}, interface{}) of length 0..4 (thorough 0..5) with EVERY assignment of three element values (evaluating to T / F / error for `f == 1`) x 30 filter expressions; oracle against the implementation's own element-wise Evaluate: result type (same slice type, []Elem for arrays, same map type), kept elements in original order / kept keys, first evaluation error => (nil, err), input unchanged (deep comparison with an identically built twin), fresh backing storage, nil filter returns its input, idempotence, E / not(E) partition when no element errs; non-containers (nil, int, string, struct, pointer to slice, chan, func) => error, never panic. Distinct by construction; non-trivial = container with >=1 element.",
+		Rule: "E1 bounded product for Filter.Execute: container shapes ([]T, named slice type, [N]T, map[K]T for K in {string,int,named string,bool}; nil and empty containers) over element kinds (struct, *struct incl. nil, map[string]interface{}, interface{}) of length 0..4 (thorough 0..5) with EVERY assignment of three element values, plus lengths 8, 9, 17, 33 with selected patterns, (evaluating to T / F / error for `f == 1`) x 30 filter expressions; oracle against the implementation's own element-wise Evaluate: result type (same slice type, []Elem for arrays, same map type), kept elements in original order / kept keys, first evaluation error => (nil, err), input unchanged (deep comparison with an identically built twin), fresh backing storage, nil filter returns its input, idempotence, E / not(E) partition when no element errs; non-containers (nil, int, string, struct, pointer to slice, chan, func) => error, never panic. Distinct by construction; non-trivial = container with >=1 element.",
 		Assumptions: []string{"differential against Evaluate on the same tree (Evaluate itself is C01's business)", "bounded container sizes and element alphabet"},
 		Run:         runC17,
 	})
@@ -149,6 +149,19 @@ func runC17(c *eng.Ctx) {
 		maxLen = 5
 	}
 	pats := patterns(3, maxLen)
+	for _, n := range []int{8, 9, 17, 33} {
+		mk := func(fill int, at map[int]int) []int {
+			p := make([]int, n)
+			for i := range p {
+				p[i] = fill
+				if v, ok := at[i]; ok {
+					p[i] = v
+				}
+			}
+			return p
+		}
+		pats = append(pats, mk(0, nil), mk(1, nil), mk(1, map[int]int{0: 0, n - 1: 0}), mk(0, map[int]int{1: 1, n / 2: 1}), mk(0, map[int]int{n - 1: 2}), mk(1, map[int]int{0: 0, 2: 0, 4: 0, n - 2: 0}))
+	}
 	conts := c17Containers()
 	unit := 0
 	for xi, src := range c17Exprs {
